@@ -940,6 +940,69 @@ func c19ZeroDest(p *Program, r *Report) {
 				return true
 			})
 			if !fresh {
+				// a destination handed in by the callers: every call site passes the address of a variable it declared
+				// without a value (decodeUUIDHex(&parsed, text) with `var parsed UUID`)
+				for k := 0; ; k++ {
+					po := paramObj(info, u.Decl.Type, k)
+					if po == nil {
+						break
+					}
+					if po != obj {
+						continue
+					}
+					sites, good := 0, 0
+					for _, cf := range p.SortedFuncs() {
+						if cf.Decl.Body == nil {
+							continue
+						}
+						ci := cf.Pkg.TypesInfo
+						for _, cc := range callsIn(cf.Decl.Body) {
+							if calleeOf(ci, cc) != u.Obj || k >= len(cc.Args) {
+								continue
+							}
+							sites++
+							if ue, ok := ast.Unparen(cc.Args[k]).(*ast.UnaryExpr); ok && ue.Op == token.AND {
+								if aid, ok := ast.Unparen(ue.X).(*ast.Ident); ok {
+									aobj := ci.Uses[aid]
+									declared, written := false, false
+									ast.Inspect(cf.Decl.Body, func(y ast.Node) bool {
+										switch v := y.(type) {
+										case *ast.ValueSpec:
+											if len(v.Values) == 0 {
+												for _, nm := range v.Names {
+													if ci.Defs[nm] == aobj {
+														declared = true
+													}
+												}
+											}
+										case *ast.AssignStmt:
+											if v.Pos() < cc.Pos() {
+												for _, l := range v.Lhs {
+													root := ast.Unparen(l)
+													if ix, ok := root.(*ast.IndexExpr); ok {
+														root = ast.Unparen(ix.X)
+													}
+													if isIdentOf(ci, root, aobj) {
+														written = true
+													}
+												}
+											}
+										}
+										return true
+									})
+									if declared && !written {
+										good++
+									}
+								}
+							}
+						}
+					}
+					if sites > 0 && good == sites {
+						fresh = true
+					}
+				}
+			}
+			if !fresh {
 				// cleared on every path before the store
 				sol := Solve(g, Lattice[bool]{
 					Init: true,
@@ -1317,8 +1380,61 @@ func c16HostEqualByAddress(p *Program, r *Report) {
 	if fi == nil {
 		return
 	}
-	info := fi.Pkg.TypesInfo
+	_ = fi.Pkg.TypesInfo
 	n := 0
+	// byAddr: e is decided by the connect addresses alone: a disjunction of pointer identity of the two hosts and
+	// ConnectAddress().Equal(ConnectAddress()), the latter possibly in a private helper all of whose results are such
+	var byAddr func(fn *FuncInfo, e ast.Expr, depth int) bool
+	byAddr = func(fn *FuncInfo, e ast.Expr, depth int) bool {
+		in := fn.Pkg.TypesInfo
+		res := func(x ast.Expr) ast.Expr {
+			if id, ok := ast.Unparen(x).(*ast.Ident); ok {
+				if d := localDef(in, fn, id); d != nil {
+					return d
+				}
+			}
+			return x
+		}
+		e = ast.Unparen(e)
+		if tv, isC := in.Types[e]; isC && tv.Value != nil {
+			return true
+		}
+		if be, ok := e.(*ast.BinaryExpr); ok {
+			switch be.Op {
+			case token.LOR:
+				return byAddr(fn, be.X, depth) && byAddr(fn, be.Y, depth)
+			case token.EQL:
+				tx, ty := in.TypeOf(be.X), in.TypeOf(be.Y)
+				return tx != nil && ty != nil && typeNameOf(tx) == "HostInfo" && typeNameOf(ty) == "HostInfo"
+			}
+			return false
+		}
+		c, isCall := e.(*ast.CallExpr)
+		if !isCall {
+			return false
+		}
+		if rx := recvExpr(c); rx != nil && len(c.Args) == 1 {
+			l, lok := ast.Unparen(res(rx)).(*ast.CallExpr)
+			a, aok := ast.Unparen(res(c.Args[0])).(*ast.CallExpr)
+			if lok && aok && strings.HasSuffix(calleeName(in, l), "HostInfo).ConnectAddress") && strings.HasSuffix(calleeName(in, a), "HostInfo).ConnectAddress") {
+				return true
+			}
+		}
+		if h := p.FuncOf(calleeOf(in, c)); h != nil && h.Decl.Body != nil && h.Obj != nil && !h.Obj.Exported() && depth < 2 {
+			all, any := true, false
+			inspectNoLit(h.Decl.Body, func(y ast.Node) bool {
+				if rs, ok := y.(*ast.ReturnStmt); ok && len(rs.Results) == 1 {
+					any = true
+					if !byAddr(h, rs.Results[0], depth+1) {
+						all = false
+					}
+				}
+				return true
+			})
+			return any && all
+		}
+		return false
+	}
 	inspectNoLit(fi.Decl.Body, func(x ast.Node) bool {
 		rs, ok := x.(*ast.ReturnStmt)
 		if !ok || len(rs.Results) != 1 {
@@ -1326,21 +1442,7 @@ func c16HostEqualByAddress(p *Program, r *Report) {
 		}
 		n++
 		e := ast.Unparen(rs.Results[0])
-		if tv, isC := info.Types[e]; isC && tv.Value != nil {
-			r.OK(rs, "(*HostInfo).Equal decides by connect address", "constant result under a pointer-identity guard")
-			return true
-		}
-		byAddr := false
-		if c, isCall := e.(*ast.CallExpr); isCall && len(c.Args) == 1 {
-			if rx := recvExpr(c); rx != nil {
-				l, lok := ast.Unparen(rx).(*ast.CallExpr)
-				a, aok := ast.Unparen(c.Args[0]).(*ast.CallExpr)
-				if lok && aok && strings.HasSuffix(calleeName(info, l), "HostInfo).ConnectAddress") && strings.HasSuffix(calleeName(info, a), "HostInfo).ConnectAddress") {
-					byAddr = true
-				}
-			}
-		}
-		r.Check(byAddr, rs, "(*HostInfo).Equal decides by connect address", "ConnectAddress().Equal(ConnectAddress())",
+		r.Check(byAddr(fi, e, 0), rs, "(*HostInfo).Equal decides by connect address", "pointer identity or ConnectAddress().Equal(ConnectAddress())",
 			"Equal returns "+exprStr(e)+": the host list's duplicate test (Equal) and its removal (by connect address) no longer agree, two entries can share an address and the removal of one leaves a nil entry in the list the policies iterate")
 		return true
 	})
